@@ -78,6 +78,116 @@ theorem resp_for_family (f : S_hashprefix_Filter) (req : Option S_internal_Reque
   by_cases h0 : fam = 0 <;> by_cases h1 : fam = 1 <;> by_cases h2 : fam = 2 <;> cases is4 <;> cases is6 <;>
     simp [respForFamily, names, callsOf, h0, h1, h2] <;> omega
 
+/-! ## `Storage.MatchesAny` and `Filter.FilterRequest` (translator round 3; the code after the `fix:` commit
+that matches all subdomains against one version of the hashes) -/
+
+private theorem matchesAny_aux (f : String → Bool) : ∀ (hosts : List String) (i : Int) (tr0 : List (String × List String)),
+    (match goRangeFrom (σ := List (String × List String)) (ρ := String × List (String × List String)) i hosts tr0
+        (fun st _ host => if f host = true then Step.ret (host, st ++ [("matches", ["_", host])])
+          else Step.next (st ++ [("matches", ["_", host])])) with
+      | .inr r => r
+      | .inl st => ("", st)).1 = (hosts.find? f).getD ""
+  | [], _, _ => rfl
+  | h :: hs, i, tr0 => by
+    unfold goRangeFrom
+    by_cases hf : f h = true
+    · simp [hf]
+    · simp only [hf, List.find?, Bool.false_eq_true, ↓reduceIte]
+      have := matchesAny_aux f hs (i + 1) (tr0 ++ [("matches", ["_", h])])
+      simpa [hf] using this
+
+/-- `MatchesAny` returns the **first** candidate (in the order given) that the one loaded version of the
+hash map matches, `""` when there is none — for every list of candidates and every map (`f` is `matches`
+on the map loaded once before the loop: the translation has a single read `*s.hashSuffixes.Load()`, outside
+the loop). -/
+theorem matchesAny_first (s : S_hashprefix_Storage) (hosts : List String) (loaded : AbsPtr) (f : String → Bool) :
+    (storage_MatchesAny s hosts loaded f).1 = (hosts.find? f).getD "" := by
+  unfold storage_MatchesAny goRange
+  exact matchesAny_aux f hosts 0 []
+
+/-- Consequently: a non-empty result is one of the candidates and is matched; an empty result (when `""`
+is not a candidate) means no candidate is matched. -/
+theorem matchesAny_sound_complete (s : S_hashprefix_Storage) (hosts : List String) (loaded : AbsPtr) (f : String → Bool)
+    (hne : "" ∉ hosts) :
+    let m := (storage_MatchesAny s hosts loaded f).1
+    (m ≠ "" → m ∈ hosts ∧ f m = true) ∧ (m = "" → ∀ h ∈ hosts, f h = false) := by
+  intro m
+  have hm : m = (hosts.find? f).getD "" := matchesAny_first s hosts loaded f
+  cases hfind : hosts.find? f with
+  | none =>
+    rw [hfind] at hm
+    refine ⟨fun h => absurd hm h, fun _ h hh => ?_⟩
+    have := List.find?_eq_none.mp hfind h hh
+    simpa using this
+  | some x =>
+    rw [hfind] at hm
+    have hx : x ∈ hosts := List.mem_of_find?_eq_some hfind
+    have hfx : f x = true := List.find?_some hfind
+    simp only [Option.getD_some] at hm
+    refine ⟨fun _ => by rw [hm]; exact ⟨hx, hfx⟩, fun h0 => ?_⟩
+    rw [hm] at h0
+    exact absurd (h0 ▸ hx) hne
+
+example : (storage_MatchesAny ⟨⟩ ["a.b.test", "b.test", "test"] true (fun h => h == "b.test" || h == "test")).1 = "b.test" := by decide
+
+def cnt (n : String) (tr : List (String × List String)) : Nat := (names tr).count n
+
+/-- `FilterRequest` asks the hash storage **once** per request, and only on a cache miss of a filterable
+question: the generation of the result cache is read before that single `MatchesAny`, the outcome (match
+or not) is stored under that generation afterwards, nothing is stored when building the result failed,
+and a cache hit or an unfilterable question type asks nothing.  Never panics for a non-nil request (a
+cache hit comes with an item). -/
+theorem filterRequest_single_lookup (f : S_hashprefix_Filter) (rq : S_internal_Request) (key : Int)
+    (it : Option S_hashprefix_cacheItem) (ok : Bool) (fam : Int) (isFlt : Bool) (fr1 : AbsPtr × Option String) (gen : Int)
+    (m : String) (fr2 : AbsPtr × Option String) (hit : ok = true → it ≠ none) :
+    hp_FilterRequest f (some rq) key (it, ok) (fam, isFlt) fr1 gen m fr2 ≠ none ∧
+    ∀ r e tr, hp_FilterRequest f (some rq) key (it, ok) (fam, isFlt) fr1 gen m fr2 = some (r, e, tr) →
+      cnt "MatchesAny" tr = (if isFlt && !ok then 1 else 0) ∧
+      (isFlt = true → ok = false →
+        tr.map (·.1) = "NewCacheKey" :: "itemFromCache" :: "isFilterable" :: "Load" :: "MatchesAny" ::
+          (if m = "" then ["setInCache"] else if fr2.2.isSome then ["filteredResult"] else ["filteredResult", "setInCache"]) ∧
+        (m = "" → ("setInCache", [toString gen, toString key, "", rq.Host]) ∈ tr ∧ r = false ∧ e = none) ∧
+        (m ≠ "" → fr2.2 = none → ("setInCache", [toString gen, toString key, m, rq.Host]) ∈ tr ∧ r = fr2.1 ∧ e = none) ∧
+        (m ≠ "" → fr2.2 ≠ none → cnt "setInCache" tr = 0 ∧ e = fr2.2)) := by
+  obtain ⟨fr2r, fr2e⟩ := fr2
+  have hit' : ok = true → ∃ item, it = some item := fun h => Option.ne_none_iff_exists'.mp (hit h)
+  cases isFlt <;> cases ok
+  · refine ⟨by simp [hp_FilterRequest], fun r e tr h => ?_⟩
+    simp [hp_FilterRequest] at h
+    obtain ⟨rfl, rfl, rfl⟩ := h
+    simp [cnt, names]
+  · refine ⟨by simp [hp_FilterRequest], fun r e tr h => ?_⟩
+    simp [hp_FilterRequest] at h
+    obtain ⟨rfl, rfl, rfl⟩ := h
+    simp [cnt, names]
+  · by_cases hm : m = ""
+    · subst hm
+      refine ⟨by simp [hp_FilterRequest], fun r e tr h => ?_⟩
+      simp [hp_FilterRequest] at h
+      obtain ⟨rfl, rfl, rfl⟩ := h
+      simp [cnt, names]
+    · cases fr2e with
+      | none =>
+        refine ⟨by simp [hp_FilterRequest, hm], fun r e tr h => ?_⟩
+        simp [hp_FilterRequest, hm] at h
+        obtain ⟨rfl, rfl, rfl⟩ := h
+        simp [cnt, names, hm]
+      | some ee =>
+        refine ⟨by simp [hp_FilterRequest, hm], fun r e tr h => ?_⟩
+        simp [hp_FilterRequest, hm] at h
+        obtain ⟨rfl, rfl, rfl⟩ := h
+        simp [cnt, names, hm]
+  · obtain ⟨item, rfl⟩ := hit' rfl
+    by_cases hmm : item.matched = ""
+    · refine ⟨by simp [hp_FilterRequest, hmm], fun r e tr h => ?_⟩
+      simp [hp_FilterRequest, hmm] at h
+      obtain ⟨rfl, rfl, rfl⟩ := h
+      simp [cnt, names]
+    · refine ⟨by simp [hp_FilterRequest, hmm], fun r e tr h => ?_⟩
+      simp [hp_FilterRequest, hmm] at h
+      obtain ⟨rfl, rfl, rfl⟩ := h
+      simp [cnt, names]
+
 end Agd.Tie.TrC11
 
 #print axioms Agd.Tie.TrC11.translation_complete
